@@ -3,6 +3,7 @@
 package absnfs
 
 import (
+	"strings"
 	"fmt"
 	"reflect"
 	"testing"
@@ -142,6 +143,7 @@ func vfC24Seq(rec *evid.Rec, s int) {
 		}
 		var cerr error
 		rejected := false
+		hung := false
 		desc := kind
 		func() {
 			defer func() {
@@ -183,7 +185,10 @@ func vfC24Seq(rec *evid.Rec, s int) {
 					o.Squash = "all"
 					rejected = true
 				}
-				cerr = srv.nfs.UpdateExportOptions(o)
+				if !vfGuardAPI(rec, "C24/update-call-never-returns/"+kind, "after "+strings.Join(ops, "; "), func() { cerr = srv.nfs.UpdateExportOptions(o) }) {
+					hung = true
+					return
+				}
 				if !rejected {
 					ref, rerr := New(refs.New(), o)
 					if rerr == nil {
@@ -200,7 +205,10 @@ func vfC24Seq(rec *evid.Rec, s int) {
 				desc = fmt.Sprintf("%s squash=%q %v", kind, o.Squash, vfTuningView(o))
 				ops = append(ops, desc)
 				evid.Journal(ops)
-				cerr = srv.nfs.UpdateExportOptions(o)
+				if !vfGuardAPI(rec, "C24/update-call-never-returns/"+kind, "after "+strings.Join(ops, "; "), func() { cerr = srv.nfs.UpdateExportOptions(o) }) {
+					hung = true
+					return
+				}
 				if cerr != nil {
 					rejected = true
 				} else {
@@ -221,7 +229,10 @@ func vfC24Seq(rec *evid.Rec, s int) {
 				desc = fmt.Sprintf("%s %v", kind, vfTuningView(o))
 				ops = append(ops, desc)
 				evid.Journal(ops)
-				cerr = srv.nfs.UpdateExportOptions(o)
+				if !vfGuardAPI(rec, "C24/update-call-never-returns/"+kind, "after "+strings.Join(ops, "; "), func() { cerr = srv.nfs.UpdateExportOptions(o) }) {
+					hung = true
+					return
+				}
 				if !rejected {
 					ref, rerr := New(refs.New(), o)
 					if rerr == nil {
@@ -236,10 +247,15 @@ func vfC24Seq(rec *evid.Rec, s int) {
 				desc = fmt.Sprintf("%s %v", kind, vfTuningView(o))
 				ops = append(ops, desc)
 				evid.Journal(ops)
-				srv.nfs.UpdateTuningOptions(func(t *TuningOptions) {
-					nt := tuningFromExportOptions(&o)
-					*t = *nt
-				})
+				if !vfGuardAPI(rec, "C24/update-call-never-returns/"+kind, "after "+strings.Join(ops, "; "), func() {
+					srv.nfs.UpdateTuningOptions(func(t *TuningOptions) {
+						nt := tuningFromExportOptions(&o)
+						*t = *nt
+					})
+				}) {
+					hung = true
+					return
+				}
 				ref, rerr := New(refs.New(), o)
 				if rerr == nil {
 					vfQuiet(ref)
@@ -256,9 +272,15 @@ func vfC24Seq(rec *evid.Rec, s int) {
 				}
 				ops = append(ops, kind)
 				evid.Journal(ops)
-				cerr = srv.nfs.UpdatePolicyOptions(p)
+				if !vfGuardAPI(rec, "C24/update-call-never-returns/"+kind, "after "+strings.Join(ops, "; "), func() { cerr = srv.nfs.UpdatePolicyOptions(p) }) {
+					hung = true
+					return
+				}
 			}
 		}()
+		if hung {
+			return
+		}
 		rec.Eval(1)
 		after := srv.nfs.GetExportOptions()
 		if rejected {
